@@ -4,7 +4,7 @@ from __future__ import annotations
 import json
 from typing import List
 
-from harness.lib.core import VERIF, Ctx, lean_lock, run_driver, shrink_ops
+from harness.lib.core import VERIF, Ctx, lean_lock, load_findings, run_driver, shrink_ops, sig_matches
 from harness.extract import link as x_link
 from harness.rigs import link as rig
 
@@ -47,6 +47,8 @@ def _oracle_sig(o: dict) -> dict:
     sig = {"kind": o["kind"], "medium": o.get("medium", "-")}
     if o["kind"] == "load-exceeds-bandwidth":
         sig["nested"] = bool(o.get("nested", False))
+    if o["kind"] == "carried-data-exceeds-bandwidth":
+        sig["cause"] = o.get("cause", "unexplained")
     return sig
 
 
@@ -81,10 +83,13 @@ def run(ctx: Ctx):
     cases = []
     for f in sorted((VERIF / "corpus" / "C18").glob("*.json")):
         cases.append(("corpus:" + f.name, json.loads(f.read_text())["case"]))
-    n = ctx.scale(350, 9000)
+    n = ctx.scale(900, 12000)
     rng = ctx.rng.fork("link")
     for k in range(n):
         cases.append((f"gen:{k}", rig.gen_case(rng, max_ops=ctx.scale(12, 20))))
+    srng = ctx.rng.fork("scenario")
+    for k in range(ctx.scale(8, 120)):
+        cases.append((f"scn:{k}", rig.gen_scenario_case(srng, max_steps=ctx.scale(25, 60))))
     results, lines_all, bounds = [], [], []
     for name, case in cases:
         try:
@@ -101,6 +106,8 @@ def run(ctx: Ctx):
     model_all = run_driver(EXE, lines_all)
     agree = 0
     total = 0
+    known = 0
+    open_f = [f for f in load_findings() if f["property"] == "C18" and f.get("status") == "open"]
     maxdepth = 0
     for (name, case), r, (st, ln) in zip(cases, results, bounds):
         if r is None:
@@ -120,10 +127,7 @@ def run(ctx: Ctx):
                     if e["children"]:
                         ctx.count("send-with-nested-sends")
                 elif e["t"] in ("E", "F"):
-                    ctx.count("iface-toggle:" + ("wired" if e["t"] == "E" else "wireless") + (":nested" if False else ""))
-        for forest in r["forests"]:
-            for e in forest:
-                pass
+                    ctx.count("iface-toggle:" + ("wired" if e["t"] == "E" else "wireless"))
         # toggles that happened inside a delivery
         for forest in r["forests"]:
             for e in rig.walk(forest):
@@ -132,7 +136,7 @@ def run(ctx: Ctx):
                         ctx.count("iface-toggle-inside-delivery")
         maxdepth = max(maxdepth, d)
         ctx.count(f"depth:{min(d, 6)}")
-        ctx.count("topo:" + case["topo"]["kind"])
+        ctx.count("topo:" + (case["topo"]["kind"] if "topo" in case else "scenario:" + case["scenario"]["file"]))
         for op in case["ops"]:
             ctx.count("op:" + op[0])
         nontrivial = d >= 2 or any(v in ("full", "down", "disabled", "rejected") for v in verdicts)
@@ -148,10 +152,19 @@ def run(ctx: Ctx):
         if not orc and di < 0:
             agree += 1
             if name.startswith("gen:") and d >= 2:
-                ctx.sample({"case": name, "topo": case["topo"], "ops": case["ops"][:6], "lines": [l[:160] for l in r["lines"][:8]],
+                ctx.sample({"case": name, "topo": case.get("topo", case.get("scenario")), "ops": case["ops"][:6], "lines": [l[:160] for l in r["lines"][:8]],
                             "answers": [m[:160] for m in model[:8]]}, cap=3)
             continue
         # a failing input: the implementation breaks the property's oracle, or answers differently from the proved model
+        if di < 0 and all(any(sig_matches(f["signature"], _oracle_sig(o)) for f in open_f) for o in orc):
+            # only the recorded open finding(s): reported as KNOWN-FINDING, the trace still agrees with the model
+            agree += 1
+            known += 1
+            if known <= 1 or name.startswith("corpus:"):
+                o = orc[0]
+                ctx.violation(_oracle_sig(o), f"{o['kind']} ({o.get('medium', '-')}) at op {o['op']} {case['ops'][o['op']]}: {json.dumps(o)}",
+                              {"case": case, "oracle": orc[:5], "from": name})
+            continue
         kinds = {o["kind"] for o in orc} or {"model-vs-impl"}
 
         def fails(ops, case=case, kinds=kinds):
@@ -175,5 +188,6 @@ def run(ctx: Ctx):
                           f"impl={r2['impl'][di2] if di2 < len(r2['impl']) else None!r} model={model2[di2] if di2 < len(model2) else None!r}",
                           {"case": small, "lines": r2["lines"], "impl": r2["impl"], "model": model2, "first_diff": di2, "from": name})
     ctx.cov["max_nesting_depth"] = maxdepth
+    ctx.cov["traces_showing_only_open_findings"] = known
     ctx.oblige("rig:R-link agrees on every trace and the oracle holds", "correspondence", agree == total,
                f"{total - agree} of {total} traces disagree or break the oracle")
